@@ -234,8 +234,44 @@ def s_param_projected(rng, nval):
     return _mk(prog, "parameter_projected_and_reused", rng, nval, edges={"a": list(range(-5, 15))})
 
 
+def s_returned_local_read_in_callee(rng, nval):
+    """The callee's returned local is also read inside the callee (entity condition, a second local); the call's
+    result is projected by the caller."""
+    types = gen.Types(rng)
+    prog = [["input", "a", types.fresh(), rng.randint(-3, 12)]]
+    prog.append(["place", "lamp", "small-lamp", ["n", 0], ["n", 20], None])
+    body = [["sig", "loc", ["b", rng.choice(["*", "+", "-"]), ["v", "s"], ["n", rng.randint(2, 5)]]]]
+    if rng.random() < 0.5:
+        body.append(["set", "e", "enable", ["c", rng.choice(CMP_OPS), ["v", "loc"], ["n", rng.randint(-3, 20)]]])
+    else:
+        body.append(["sig", "other", ["b", "+", ["v", "loc"], ["n", rng.randint(1, 4)]]])
+        body.append(["set", "e", "enable", ["c", rng.choice(CMP_OPS), ["v", "other"], ["n", rng.randint(-3, 20)]]])
+    prog.append(["func", "f", [["Signal", "s"], ["Entity", "e"]], body, ["v", "loc"]])
+    prog.append(["sig", "y", ["p", ["call", "f", [["v", "a"], ["v", "lamp"]]], types.fresh()]])
+    return _mk(prog, "returned_local_read_in_callee", rng, nval, edges={"a": list(range(-5, 15))})
+
+
+def s_local_memory_named_like_callers(rng, nval):
+    """A memory declared in the callee has the name (and another type) of a memory of the caller."""
+    types = gen.Types(rng)
+    prog = [["input", "a", types.fresh(), gen.rand_value(rng, True)], ["input", "b", types.fresh(), gen.rand_value(rng, True)],
+            ["input", "en", types.fresh(), 1]]
+    t1, t2 = types.fresh(), types.fresh()
+    fn = ["func", "cell", [["Signal", "d"], ["Signal", "e"]],
+          [["mem", "m", t2], ["write", "m", ["p", ["v", "d"], t2], ["c", ">", ["v", "e"], ["n", 0]]]], ["r", "m"]]
+    decl = [["mem", "m", t1]]
+    wr = [["write", "m", ["p", ["v", "a"], t1], ["c", ">", ["v", "en"], ["n", 0]]]]
+    call = [["sig", "c0", ["p", ["call", "cell", [["v", "b"], ["v", "en"]]], types.fresh()]]]
+    rd = [["sig", "after", ["p", ["b", "+", ["r", "m"], ["n", 100]], types.fresh()]]]
+    order = rng.choice(["fdwcr", "dfwcr", "dwfcr", "fdcwr", "dfcrw"])
+    parts = {"f": [fn], "d": decl, "w": wr, "c": call, "r": rd}
+    for ch in order:
+        prog += parts[ch]
+    return _mk(prog, "local_memory_named_like_callers", rng, nval, edges={"en": [0, 1]}, memory=True)
+
+
 STRATA = [(s_scalar, 4), (s_untyped_result, 2), (s_shadow, 3), (s_entity_param, 2), (s_entity_return, 2),
-          (s_local_memory, 2), (s_nested, 3), (s_in_loop, 2), (s_int_clash, 3), (s_iter_clash, 2), (s_sigparam_clash, 2), (s_param_shadowed_by_iterator, 2), (s_param_projected, 2)]
+          (s_local_memory, 2), (s_nested, 3), (s_in_loop, 2), (s_int_clash, 3), (s_iter_clash, 2), (s_sigparam_clash, 2), (s_param_shadowed_by_iterator, 2), (s_param_projected, 2), (s_returned_local_read_in_callee, 2), (s_local_memory_named_like_callers, 2)]
 
 
 def gen_cases(tier, seed):
